@@ -712,13 +712,13 @@ example : let st := onData { be := .proxy, ver := 1, stream := 1 } {}
                       (ofString "HTTP/1.1 200 OK\r\nContent-Length: 5\r\n\r\nhel")
     st.cstate = .write ∧ st.open_ = true ∧ st.started = true ∧ st.finished = false ∧ st.handler = true ∧
     st.scratch > 0 ∧ st.sendChunked = false ∧ st.decodeChunked = false ∧ st.hdrSent = true ∧
-    bodyTruncated cfg st = true := by decide
+    bodyTruncated { be := .proxy, ver := 1, stream := 1 } st = true := by decide
 /-- ... of a chunked body passed through (decoder not done), and of an EOF-delimited body -/
 example : let st := onData { be := .proxy, ver := 1, stream := 1 } {}
                       (ofString "HTTP/1.1 200 OK\r\nTransfer-Encoding: chunked\r\n\r\n5\r\nhel")
     st.cstate = .write ∧ st.open_ = true ∧ st.started = true ∧ st.finished = false ∧ st.handler = true ∧
     st.sendChunked = true ∧ st.dc.isSome = true ∧ st.dcDone = 0 ∧ st.hdrSent = true ∧
-    bodyTruncated cfg st = true := by decide
+    bodyTruncated { be := .proxy, ver := 1, stream := 1 } st = true := by decide
 example : let st := onData { be := .scgi, ver := 1, stream := 1 } {} (ofString "Status: 200\r\n\r\nhel")
     st.cstate = .write ∧ st.open_ = true ∧ st.started = true ∧ st.finished = false ∧ st.handler = true ∧
     st.sendChunked = true ∧ st.dc = none ∧ st.scratch < 0 := by decide
@@ -727,7 +727,7 @@ example : let st := onData { be := .scgi, ver := 1, stream := 1 } {} (ofString "
 example : let st := onData { be := .proxy, ver := 1, stream := 0 } {}
                       (ofString "HTTP/1.1 200 OK\r\nTransfer-Encoding: chunked\r\n\r\n5\r\nhello\r\n")
     st.cstate = .handle ∧ st.open_ = true ∧ st.started = true ∧ st.finished = false ∧ st.handler = true ∧
-    st.hdrSent = false ∧ bodyTruncated cfg st = true ∧ (st.sendChunked = true → st.dc.isSome = true) := by decide
+    st.hdrSent = false ∧ bodyTruncated { be := .proxy, ver := 1, stream := 0 } st = true ∧ (st.sendChunked = true → st.dc.isSome = true) := by decide
 example : Broken { be := .proxy, ver := 1, stream := 0 }
     (onData { be := .proxy, ver := 1, stream := 0 } {}
       (ofString "HTTP/1.1 200 OK\r\nTransfer-Encoding: chunked\r\n\r\n5\r\nhello\r\n")) .eof :=
